@@ -5,7 +5,7 @@ P = '/verif/DESIGN.md'
 s = open(P).read()
 HEAD = '| id | change | needs, to manifest | caught by |\n|----|--------|--------------------|-----------|\n'
 marks = [('## 10. Seeded changes', 'seeded'), ('### Round 2', 'seeded2'), ('### Round 3', 'seeded3'), ('### Round 4', 'seeded4'),
-         ('### Round 5', 'seeded5'), ('### Round 6', 'seeded6'), ('### Round 7', 'seeded7')]
+         ('### Round 5', 'seeded5'), ('### Round 6', 'seeded6'), ('### Round 7', 'seeded7'), ('### Round 8', 'seeded8')]
 for mark, d in marks:
     i = s.find(mark)
     if i < 0:
